@@ -311,6 +311,7 @@ def _same_log(a, b):
 # --------------------------------------------------------------------------------------------- C15 composite
 MEMBERS = int(os.environ.get("XH_MEMBERS", "2"))
 BODY_RAISE = os.environ.get("XH_BODY_RAISE") == "1"
+NMIN, NMAX = int(os.environ.get("XH_NMIN", "0")), int(os.environ.get("XH_NMAX", "4"))
 _FAIL_EXC = ValueError("reported failure")
 
 
@@ -324,7 +325,7 @@ def c15_composite(n: int, k0: int, x0: int, k1: int, x1: int, k2: int, x2: int, 
     A symbolic sequence of n <= 4 notifications (kind k_i: 0 total / 1 running / 2 completed / 3 failed; scope value x_i;
     symbolic amount and section) sent to the real CompositeProgressObserver of XH_MEMBERS recording members.
 
-    pre: 0 <= n <= 4
+    pre: 0 <= NMIN <= n <= NMAX <= 4
     pre: 0 <= k0 <= 3 and 0 <= k1 <= 3 and 0 <= k2 <= 3 and 0 <= k3 <= 3
     post: _
     """
@@ -495,8 +496,7 @@ try:
 
     _xc._PATCH_REGISTRATIONS[format] = _sym_format
 
-    def _realize(x):
-        return _xc.realize(x) if _is_tracing() else x
+    _realize = _xc.realize  # identity on concrete values
 
     def _untraced():
         return _NoTracing() if _is_tracing() else W._Null()
@@ -576,22 +576,46 @@ def _digits(x):
     return f"{x}"
 
 
-def progress_oracle(c, f, r, t):
+def progress_parts(c, f, r, t):
     """From the display's documented format: 'c / t' when nothing started or everything finished, '(c + r) / t' while
-    in progress, ', f failed' appended when there are failures."""
+    in progress; ', f failed' appended when there are failures."""
     if c + f + r == 0 or c + f == t:
-        s = _digits(c) + " / " + _digits(t)
+        base = _digits(c) + " / " + _digits(t)
     else:
-        s = "(" + _digits(c) + " + " + _digits(r) + ") / " + _digits(t)
-    if f >= 1:
-        s = s + ", " + _digits(f) + " failed"
-    return s
+        base = "(" + _digits(c) + " + " + _digits(r) + ") / " + _digits(t)
+    return base, ((", " + _digits(f) + " failed") if f >= 1 else "")
 
 
-def _check_renderings(state, want, excs, nei):
-    """state: section -> {scope: ScopeState}; want: section -> {scope: (progress string, elapsed string, (c, f, r, t))}.
-    Calls the three real _render methods; False when one raises or a scope's line is missing."""
-    kw = dict(initial_update_delay=0, min_update_interval=0, max_update_interval=0)
+def progress_oracle(c, f, r, t):
+    base, suffix = progress_parts(c, f, r, t)
+    return base + suffix
+
+
+OBS = os.environ.get("XH_OBS", "ch")  # which text renderers run traced in c20_counts: c(onsole) h(tml)
+
+
+def _check_renderings(state, want, excs, nei, native=False):
+    """state: section -> {scope: ScopeState}; want: section -> {scope: (progress string, elapsed string, progress string
+    without the failure suffix, failed count)}.
+    Calls the three real _render methods; False when one raises or a scope's line is missing.
+    native=True: nothing symbolic is left (every code was pinned by a case split): run everything untraced."""
+    if native:
+        with _untraced():
+            return _check_console(state, want, excs, nei) and _check_html(state, want, excs) and \
+                _check_untraced(state, excs, nei)
+    if "c" in OBS and not _check_console(state, want, excs, nei):
+        return False
+    if "h" in OBS and not _check_html(state, want, excs):
+        return False
+    with _untraced():
+        return _check_untraced(state, excs, nei)
+
+
+KW = dict(initial_update_delay=0, min_update_interval=0, max_update_interval=0)
+
+
+def _check_console(state, want, excs, nei):
+    kw = KW
     # ---- console (traced)
     con = _CON.ConsoleProgressObserver(**kw)
     try:
@@ -609,7 +633,7 @@ def _check_renderings(state, want, excs, nei):
         we = max(len(v[1]) for v in rows.values())
         if (section + ":\n") not in text:
             return False
-        for scope, (ps, es, _n) in rows.items():
+        for scope, (ps, es, _base, _f) in rows.items():
             if ("  " + _rj(ps, wp) + " | " + _rj(es, we) + " | " + _scope_str(scope) + "\n") not in text:
                 return False
     if ("new exceptions:\n" in text) != (nei < len(excs)):
@@ -617,15 +641,19 @@ def _check_renderings(state, want, excs, nei):
     for i in range(nei, len(excs)):
         if ("  exception %d; %s\n" % (i + 1, _scope_str(excs[i][0]))) not in text:
             return False
-    # ---- HTML: the document builder traced, the observer's _render (builder + utf-8 encoding) on the realised state
+    return True
+
+
+def _check_html(state, want, excs):
+    # the document builder (traced when counts are symbolic); the observer's own _render = builder + utf-8 encoding
+    # runs in _check_untraced on the realised state
     try:
         doc = _HTM._render_html(state, excs, ELAPSED)
     except Exception:
         return False
     for section in ("stale", "run"):
-        for scope, (ps, es, (c, f, r, t)) in (want.get(section) or {}).items():
-            base = ps.split(", ")[0] if not isinstance(f, int) or f else ps
-            if _esc(base) not in doc:
+        for scope, (ps, es, base, f) in (want.get(section) or {}).items():
+            if base not in doc:  # digits, blanks and ( + ) / only: nothing for HTML escaping to change
                 return False
             if f >= 1 and (">" + _digits(f) + " failed</span>") not in doc:
                 return False
@@ -634,38 +662,42 @@ def _check_renderings(state, want, excs, nei):
     for i in range(len(excs)):
         if ("Exception %d; %s\n" % (i + 1, _esc(_scope_str(excs[i][0])))) not in doc:
             return False
-    with _untraced():
-        cstate = {sec: {sc: _SPO.ScopeState(completed=_realize(s.completed), failed=_realize(s.failed),
-                                            running=_realize(s.running), total=_realize(s.total),
-                                            weighted_elapsed=s.weighted_elapsed) for sc, s in m.items()}
-                  for sec, m in state.items()}
-        cnei = _realize(nei)
-        sink = []
-        htm = _HTM.HtmlProgressObserver(sink.append, **kw)
+    return True
+
+
+def _check_untraced(state, excs, nei):
+    kw = KW
+    cstate = {sec: {sc: _SPO.ScopeState(completed=_realize(s.completed), failed=_realize(s.failed),
+                                        running=_realize(s.running), total=_realize(s.total),
+                                        weighted_elapsed=s.weighted_elapsed) for sc, s in m.items()}
+              for sec, m in state.items()}
+    cnei = _realize(nei)
+    sink = []
+    htm = _HTM.HtmlProgressObserver(sink.append, **kw)
+    try:
+        data = htm._render(cstate, cnei, excs, ELAPSED)
+        htm._output(data)
+    except Exception:
+        return False
+    if type(data) is not bytes or sink != [data] or b"<title>uberjob</title>" not in data:
+        return False
+    # ---- IPython widgets (ipywidgets / traitlets run untraced on the realised state)
+    if HAVE_IPY:
+        ipy = _IPY.IPythonProgressObserver(**kw)
         try:
-            data = htm._render(cstate, cnei, excs, ELAPSED)
-            htm._output(data)
+            ipy._render(cstate, cnei, excs, ELAPSED)
+            ipy._render(cstate, len(excs), excs, ELAPSED + 1)
         except Exception:
             return False
-        if type(data) is not bytes or sink != [data] or b"<title>uberjob</title>" not in data:
-            return False
-        # ---- IPython widgets (ipywidgets / traitlets run untraced on the realised state)
-        if HAVE_IPY:
-            ipy = _IPY.IPythonProgressObserver(**kw)
-            try:
-                ipy._render(cstate, cnei, excs, ELAPSED)
-                ipy._render(cstate, len(excs), excs, ELAPSED + 1)
-            except Exception:
-                return False
-            for section, m in cstate.items():
-                for scope, s in m.items():
-                    label = ipy._widget_cache[("section", section, "scope", scope, "label")].value
-                    bar = ipy._widget_cache[("section", section, "scope", scope, "progress")]
-                    ps = progress_oracle(s.completed, s.failed, s.running, s.total)
-                    if not label.startswith(ps + "; ") or not label.endswith("; " + _scope_str(scope, zw=True)):
-                        return False
-                    if bar.max != s.total or bar.value != s.completed + s.failed:
-                        return False
+        for section, m in cstate.items():
+            for scope, s in m.items():
+                label = ipy._widget_cache[("section", section, "scope", scope, "label")].value
+                bar = ipy._widget_cache[("section", section, "scope", scope, "progress")]
+                ps = progress_oracle(s.completed, s.failed, s.running, s.total)
+                if not label.startswith(ps + "; ") or not label.endswith("; " + _scope_str(scope, zw=True)):
+                    return False
+                if bar.max != s.total or bar.value != s.completed + s.failed:
+                    return False
     return True
 
 
@@ -694,12 +726,10 @@ def c20_kinds(k00: int, v00: int, k01: int, v01: int, k10: int, v10: int, k11: i
 
     pre: 0 <= k00 <= 2 and 0 <= k01 <= 2 and 0 <= k10 <= 2 and 0 <= k11 <= 2 and 0 <= k20 <= 2 and 0 <= k21 <= 2
     pre: 0 <= v00 <= 1 and 0 <= v01 <= 1 and 0 <= v10 <= 1 and 0 <= v11 <= 1 and 0 <= v20 <= 1 and 0 <= v21 <= 1
-    pre: 0 <= nei
+    pre: 0 <= nei <= NEXC
     post: _
     """
     begin()
-    if nei > NEXC:
-        return True
     nei = _pin(nei, 0, NEXC)
     ks = [[k00, k01], [k10, k11], [k20, k21]]
     vs = [[v00, v01], [v10, v11], [v20, v21]]
@@ -710,15 +740,15 @@ def c20_kinds(k00: int, v00: int, k01: int, v01: int, k10: int, v10: int, k11: i
         scope = tuple(_elem(_pin(ks[i][e], 0, 2), _pin(vs[i][e], 0, 1)) for e in range(LENS[i]))
         c, f, r, t, we, ps, es = PATTERNS[(i + PAT) % len(PATTERNS)]
         run[scope] = _SPO.ScopeState(completed=c, failed=f, running=r, total=t, weighted_elapsed=we)
-        want[scope] = (ps, es, (c, f, r, t))  # equal tuples collapse into one scope, as in the real State
+        want[scope] = (ps, es, ps.split(", ")[0], f)  # equal tuples collapse into one scope, as in the real State
     state, wants = {"run": run}, {"run": want}
     if STALE:
         c, f, r, t, we, ps, es = PATTERNS[(PAT + 2) % len(PATTERNS)]
         sscope = tuple(run)[0] + (ST,)
         state["stale"] = {sscope: _SPO.ScopeState(completed=c, failed=f, running=r, total=t, weighted_elapsed=we)}
-        wants["stale"] = {sscope: (ps, es, (c, f, r, t))}
+        wants["stale"] = {sscope: (ps, es, ps.split(", ")[0], f)}
     excs = [(tuple(run)[j % len(run)], EXCS[j]) for j in range(NEXC)]
-    if not _check_renderings(state, wants, excs, nei):
+    if not _check_renderings(state, wants, excs, nei, native=True):
         return False
     return ok()
 
@@ -734,15 +764,13 @@ def c20_counts(c0: int, f0: int, r0: int, t0: int, c1: int, f1: int, r1: int, t1
     """
     XH_N concrete scopes (mixed kinds, two unorderable Opaques) with symbolic counts under the C15-legal invariant.
 
-    pre: 1 <= t0 and 0 <= c0 and 0 <= f0 and 0 <= r0 and c0 + f0 + r0 <= t0
-    pre: 1 <= t1 and 0 <= c1 and 0 <= f1 and 0 <= r1 and c1 + f1 + r1 <= t1
-    pre: 1 <= t2 and 0 <= c2 and 0 <= f2 and 0 <= r2 and c2 + f2 + r2 <= t2
-    pre: 0 <= nei
+    pre: 1 <= t0 <= MAXT and 0 <= c0 and 0 <= f0 and 0 <= r0 and c0 + f0 + r0 <= t0
+    pre: 1 <= t1 <= MAXT and 0 <= c1 and 0 <= f1 and 0 <= r1 and c1 + f1 + r1 <= t1
+    pre: 1 <= t2 <= MAXT and 0 <= c2 and 0 <= f2 and 0 <= r2 and c2 + f2 + r2 <= t2
+    pre: 0 <= nei <= NEXC
     post: _
     """
     begin()
-    if nei > NEXC or t0 > MAXT or t1 > MAXT or t2 > MAXT:
-        return True  # outside the stated bound
     nei = _pin(nei, 0, NEXC)
     cnt = [(c0, f0, r0, t0), (c1, f1, r1, t1), (c2, f2, r2, t2)]
     run, want = {}, {}
@@ -750,12 +778,14 @@ def c20_counts(c0: int, f0: int, r0: int, t0: int, c1: int, f1: int, r1: int, t1
         c, f, r, t = cnt[i]
         we, es = COUNT_ELAPSED[i]
         run[COUNT_SCOPES[i]] = _SPO.ScopeState(completed=c, failed=f, running=r, total=t, weighted_elapsed=we)
-        want[COUNT_SCOPES[i]] = (progress_oracle(c, f, r, t), es, (c, f, r, t))
+        base, suffix = progress_parts(c, f, r, t)
+        want[COUNT_SCOPES[i]] = (base + suffix, es, base, f)
     state, wants = {"run": run}, {"run": want}
     if STALE:
         sscope = (FN, ST)
         state["stale"] = {sscope: _SPO.ScopeState(completed=c0, failed=f0, running=r0, total=t0, weighted_elapsed=0)}
-        wants["stale"] = {sscope: (progress_oracle(c0, f0, r0, t0), "0s", cnt[0])}
+        base, suffix = progress_parts(c0, f0, r0, t0)
+        wants["stale"] = {sscope: (base + suffix, "0s", base, f0)}
     excs = [(COUNT_SCOPES[j % NSC], EXCS[j]) for j in range(NEXC)]
     if not _check_renderings(state, wants, excs, nei):
         return False
@@ -764,7 +794,6 @@ def c20_counts(c0: int, f0: int, r0: int, t0: int, c1: int, f1: int, r1: int, t1
 
 # ---- c20_elapsed
 MAXE = int(os.environ.get("XH_MAXE", "35999999"))
-AS_FLOAT = os.environ.get("XH_FLOAT") == "1"
 
 
 def _two(x):
@@ -776,13 +805,11 @@ def c20_elapsed(e: int) -> bool:
     get_elapsed_string(e) == hours 'h' minutes(2) 'm' seconds(2) 's' with leading zero units dropped, where
     hours*3600 + minutes*60 + seconds == e, 0 <= minutes, seconds < 60 -- for every 0 <= e <= XH_MAXE.
 
-    pre: 0 <= e
+    pre: 0 <= e <= MAXE
     post: _
     """
     begin()
-    if e > MAXE:
-        return True
-    got = _SPO.get_elapsed_string(float(e) if AS_FLOAT else e)
+    got = _SPO.get_elapsed_string(e)
     # independent decomposition: seconds first by subtraction, then minutes from the minute count
     whole_minutes = e // 60
     s = e - 60 * whole_minutes
